@@ -10,8 +10,11 @@
    together with lines_contiguous this is "nothing lost, duplicated, reordered or split off its cluster".
    The composition goes through the store-structure invariant of Proofs/WrapStore.v.
    The empty paragraph (n = 0) is covered by empty_paragraph_calls / empty_paragraph_wrap.
-   NOT proved: "Advance = sum of the glyph advances" at return time (false: finding F6; advance_is_sum_partial states it at
-   the time of the cut). *)
+   NOT proved as a theorem: "Advance = sum of the glyph advances" at return time (advance_is_sum_partial states it at the
+   time of the cut).  It is no longer false of the model: finding F6 (a run placed whole kept the stale Advance of an input
+   edited through aliasing slices) is repaired in the library (a run placed whole has its advance recomputed from its
+   glyphs: fillUntil and the single-run fast path) and the model follows; the oracle checks the clause on every returned
+   line, the former witness is a regression record in Findings/Wrap.v (f6_repaired). *)
 From TV Require Import Model.WrapBuf Spec.WrapBuf Proofs.WrapBuf.
 From TV Require Import Model.Wrap Spec.Wrap Spec.WrapCut Proofs.Wrap Proofs.WrapCut Proofs.WrapLines Proofs.WrapTotal Proofs.WrapStore Proofs.WrapEmpty.
 
